@@ -17,7 +17,7 @@ use prometheus::{
 use crate::neutral::{neutral_all, show_f64, NFamily, NSample, NType, NValue};
 use crate::src::Src;
 
-const NAMES: &[&str] = &["m", "a", "a_b", "req_total", "x:y", "lat"];
+const NAMES: &[&str] = &["m", "a", "a_b", "req_total", "x:y", "lat", "b", "c_d", "q", "n1", "up", "z_total"];
 const HELPS: &[&str] = &["h", "some help", "é\"\\\n", ""];
 const LNAMES: &[&str] = &["l", "code", "a", "zz"];
 const LVALS: &[&str] = &["", "v", "200", "a\"b", "x\\y", "line\nbreak", "é", "😀", " ", "vv"];
